@@ -105,6 +105,9 @@ pub fn run(ws: &[&str]) -> String {
     // even be prepared, and clients whose credentials coincide with the real ones under some
     // lossy reading (other split of "id:secret", other letter case, trimmed / padded, form-decoded,
     // id and secret swapped).  Nothing of them may reach the observed request.
+    // in half of the cases every setter (of the client and of the request builder) is first called
+    // with a value that is then superseded: the last call must win
+    let twice = ws.iter().flat_map(|w| w.bytes()).fold(0xcbf29ce484222325u64, |h, b| (h ^ b as u64).wrapping_mul(0x100000001b3)) >> 19 & 1 == 0;
     let last_decoy: RefCell<Option<(String, String)>> = RefCell::new(None);
     let others_first = ws.iter().flat_map(|w| w.bytes()).fold(0xcbf29ce484222325u64, |h, b| (h ^ b as u64).wrapping_mul(0x100000001b3)) >> 29 & 1 == 0;
     if others_first {
@@ -246,7 +249,6 @@ pub fn run(ws: &[&str]) -> String {
         ($ty:ident) => {{
             // in half of the cases every setter is first called with a value that is then
             // superseded: the last call must win (rotated secret, changed auth type / redirect)
-            let twice = ws.iter().flat_map(|w| w.bytes()).fold(0xcbf29ce484222325u64, |h, b| (h ^ b as u64).wrapping_mul(0x100000001b3)) >> 19 & 1 == 0;
             let c = $ty::new(ClientId::new(id.clone()));
             let c = if twice {
                 c.set_auth_type(match auth { AuthType::BasicAuth => AuthType::RequestBody, _ => AuthType::BasicAuth })
@@ -323,9 +325,15 @@ pub fn run(ws: &[&str]) -> String {
                     };
                     let mut req = client.exchange_code(AuthorizationCode::new(code));
                     if let Some(v) = ver {
+                        if twice {
+                            req = req.set_pkce_verifier(PkceCodeVerifier::new("superseded-verifier-superseded-verifier-superseded".to_string()));
+                        }
                         req = req.set_pkce_verifier(PkceCodeVerifier::new(v));
                     }
                     if let Some(o) = over {
+                        if twice {
+                            req = req.set_redirect_uri(Cow::Owned(RedirectUrl::new("https://superseded.example/override".to_string()).unwrap()));
+                        }
                         match RedirectUrl::new(o) {
                             Ok(u) => req = req.set_redirect_uri(Cow::Owned(u)),
                             Err(_) => return BAD.into(),
@@ -414,6 +422,9 @@ pub fn run(ws: &[&str]) -> String {
             };
             let mut req = client.introspect(&t);
             if let Some(h) = h {
+                if twice {
+                    req = req.set_token_type_hint("superseded-hint");
+                }
                 req = req.set_token_type_hint(h);
             }
             finish!(req);
